@@ -168,6 +168,7 @@ theorem FW.step_ok (cfg : Config R) (hfx : cfg.fx = Fixes.repaired) (ext : Ext R
     simp only [FW.stepWith]
     obtain ⟨ms, hms, hv, hne⟩ := assignStage_repaired hext cfg.fx hst cfg.matcher s.tracks.length
       (toCost (scoreMatrixP cfg.red score s.cands s.tracks.length (cur.map (·.1))))
+      (colPattern_scoreMatrix _ _ _ _ _)
     rw [hms]
     have hlen : (toCost (scoreMatrixP cfg.red score s.cands s.tracks.length (cur.map (·.1)))).length
         = cur.length := by rw [toCost_length, scoreMatrixP_length]; simp
@@ -430,6 +431,7 @@ theorem LQ.step_ok (cfg : Config R) (hfx : cfg.fx = Fixes.repaired) (hw : 0 < cf
     simp only [LQ.stepWith]
     obtain ⟨ms, hms, hv, hne⟩ := assignStage_repaired hext cfg.fx hst cfg.matcher s.tracks.length
       (toCost (scoreMatrixP cfg.red score s.cands s.tracks.length (cur.map (·.1))))
+      (colPattern_scoreMatrix _ _ _ _ _)
     rw [hms]
     have hlen : (toCost (scoreMatrixP cfg.red score s.cands s.tracks.length (cur.map (·.1)))).length
         = cur.length := by rw [toCost_length, scoreMatrixP_length]; simp
